@@ -9,6 +9,14 @@ VERIF="$(cd .. && pwd)"
 ID="$1"; SEED="${2:-1}"
 case "$ID" in
   C01) TARGETS="c01_programs";;
+  C02) TARGETS="c02_ctor";;
+  C03) TARGETS="c03_addsub";;
+  C04) TARGETS="c04_mul";;
+  C05) TARGETS="c05_div";;
+  C06) TARGETS="c06_cmp";;
+  C10) TARGETS="c10_forms";;
+  C13) TARGETS="c13_pow";;
+  C19) TARGETS="c19_rem";;
   C07) TARGETS="c07_pairs";;
   C08) TARGETS="c08_round";;
   C09) TARGETS="c09_try_from";;
